@@ -159,6 +159,40 @@ Theorem C10_completed_effects :
 Proof. exact completed_effects_src. Qed.
 Print Assumptions C10_completed_effects.
 
+(* "Effects of operations that had returned before the crash are all present", across any
+   number of crashes: a blob stored by a Push that returned is there as long as no later
+   operation -- completed or interrupted at any cut -- is a Delete of it (cascades and
+   sweeps are sequences of such deletes) ... *)
+Theorem C10_completed_push_survives_crashes :
+  forall (H : list N -> N) (shuffle : nat -> list entry -> list entry),
+    (forall c l e, In e (shuffle c l) <-> In e l) ->
+    forall (h : list hop) (d : N),
+      stored_since H d h = true ->
+      exists_file (sfs (runc H shuffle src_inplace src_unlink_first true h init)) (FBlob d) = true.
+Proof. exact completed_push_survives_src. Qed.
+Print Assumptions C10_completed_push_survives_crashes.
+
+(* ... and a reference set by a Tag that returned (on a stored blob) is in index.json as long as
+   no later operation -- completed or interrupted -- is a Tag or Untag of that name or a
+   Delete of that blob. *)
+Theorem C10_completed_tag_survives_crashes :
+  forall (H : list N -> N) (shuffle : nat -> list entry -> list entry),
+    (forall c l e, In e (shuffle c l) <-> In e l) ->
+    forall (h : list hop) (d r : N),
+      tagged_since H d r h = true ->
+      exists l, read_index (sfs (runc H shuffle src_inplace src_unlink_first true h init)) = Some l /\
+                tag_of l r d.
+Proof. exact completed_tag_survives_src. Qed.
+Print Assumptions C10_completed_tag_survives_crashes.
+
+Example C10_survives_example :
+  let H := fun c : list N => match c with [7] => 1 | [9] => 2 | _ => 0 end in
+  let h := [Done (Push 2 [9] true); Done (Tag 2 5); Crashed (Push 1 [7] false) 3;
+            Crashed (Tag 2 6) 2; Done (Push 1 [7] false); Crashed (Delete 1) 0] in
+  stored_since H 2 h = true /\ tagged_since H 2 5 h = true /\
+  stored_since H 1 h = false /\ tagged_since H 2 6 h = false.
+Proof. vm_compute. repeat split; reflexivity. Qed.
+
 (* Nothing that a reader looks at is ever written in place: every create / truncate /
    write / chmod micro-step of every operation targets a temporary (ingest/<d>_<rnd> or
    index.json.tmp<rnd>); oci-layout, index.json and blobs/ change by rename and unlink
